@@ -85,7 +85,11 @@ Section Spec.
     | [] => []
     end.
 
-  (* schema.shaped, read off the library text (n bounds the nesting depth) *)
+  (* schema.shaped (n bounds the nesting depth): base types must agree; tuples: every field of the shape
+     is present in the value with a matching shape, and every field of the value either matches the
+     shape's field or -- when absent from the shape -- is allowed exactly when partial; this applies at
+     every depth.  Lists: every element matches `any` of the shape list's entries (the library calls
+     schema.any with ITS default partial = false there), an empty shape list accepts any list. *)
   Definition is_tuple_v (v : value) : bool := match v with VTuple _ _ => true | _ => false end.
   Definition is_list_v (v : value) : bool := match v with VList _ _ => true | _ => false end.
   Fixpoint ref_shaped (n : nat) (partial : bool) (val shape : value) : bool :=
@@ -97,7 +101,7 @@ Section Spec.
         match shape with
         | VTuple _ sfs =>
           forallb (fun ks => match lookup fo (fst ks) vfs with
-                             | Some vv => ref_shaped n' false (snd ks) vv      (* sic: roles swapped, partial = false *)
+                             | Some vv => ref_shaped n' partial vv (snd ks)
                              | None => false end) sfs
           && forallb (fun kv => match lookup fo (fst kv) sfs with
                                 | Some sv => ref_shaped n' partial (snd kv) sv
